@@ -24,6 +24,7 @@ import (
 	"fmt"
 	"io"
 	"log"
+	"os"
 	"reflect"
 	"runtime"
 	"strings"
@@ -671,6 +672,7 @@ func runC20Stress(rec *kit.Recorder, c c20Case) error {
 	var holdI, holdB atomic.Int64
 	var acquired, yielded, failed atomic.Int64
 	var firstErr atomic.Value
+	var stop atomic.Bool
 	fail := func(d *kit.Discrepancy) {
 		firstErr.CompareAndSwap(nil, d)
 	}
@@ -681,7 +683,7 @@ func runC20Stress(rec *kit.Recorder, c c20Case) error {
 		go func(w int) {
 			defer wg.Done()
 			if p := c20Guard(func() {
-				for k := 0; k < len(c.Plan); k++ {
+				for k := 0; k < len(c.Plan) && !stop.Load(); k++ {
 					b := c.Plan[(k+w*7)%len(c.Plan)] + uint8(w)
 					ctx, cancel := context.WithCancel(context.Background())
 					cancels[w].Store(&cancel)
@@ -742,7 +744,28 @@ func runC20Stress(rec *kit.Recorder, c c20Case) error {
 			}
 		}(w)
 	}
-	wg.Wait()
+	// Deadlock monitor (exact, not a timeout): if every worker sits in a waiter
+	// list nobody is left to release or cancel, so slots must have leaked.
+	finished := make(chan struct{})
+	go func() { wg.Wait(); close(finished) }()
+monitor:
+	for {
+		select {
+		case <-finished:
+			break monitor
+		default:
+		}
+		if snap := r.snapshot(); snap.waitI+snap.waitB >= c.Workers {
+			fail(kit.Fail("leak", "stress: all %d workers wait for a slot (interactive %d, batch %d waiting; semaphores hold %d/%d) and nobody holds one", c.Workers, snap.waitI, snap.waitB, snap.curI, snap.curB))
+			stop.Store(true)
+			for i := range cancels {
+				if cf := cancels[i].Load(); cf != nil {
+					(*cf)()
+				}
+			}
+		}
+		time.Sleep(200 * time.Microsecond)
+	}
 	rec.Add("stress_acquired", int(acquired.Load()))
 	rec.Add("stress_yielded_to_batch", int(yielded.Load()))
 	rec.Add("stress_failed_with_done_context", int(failed.Load()))
@@ -777,7 +800,8 @@ func genC20(rt *rapid.T) c20Case {
 	if c20Rare(g, 5, "cap8") {
 		c.Cap = 8
 	}
-	if c20Rare(g, 2, "stress") {
+	// VERIF_C20_STRESS=off (sensitivity experiments): deterministic part only
+	if c20Rare(g, 2, "stress") && os.Getenv("VERIF_C20_STRESS") != "off" {
 		c.Stress = true
 		c.BatchDiv = kit.Pick(g, []int{0, 1, 2}, "batchdiv")
 		c.Workers = g.Int(2, 3*c.Cap+2, "workers")
